@@ -2,8 +2,13 @@
 (* C09 -- span forest under a configured sampler; explored exhaustively by TLC,        *)
 (* every edge is printed (EDGE json) and replayed on a real TracerProvider.            *)
 (*                                                                                      *)
-(* Configure(s)            build the provider with sampler term s (one per behaviour)   *)
-(* Start(kind,i,newRoot,hi) start a span under: no parent | local span i | span context *)
+(* Configure(s)            fix the sampler term s (one per behaviour) and build the     *)
+(*                         first TracerProvider of the process with it                  *)
+(* NewProv                 build one more TracerProvider (same configuration, its own   *)
+(*                         ID generator) -- at any time: before / after / between the   *)
+(*                         spans the other providers start                              *)
+(* Start(p,kind,i,newRoot,hi) provider p's tracer starts a span under: no parent |      *)
+(*                         local span i (started by ANY provider) | span context        *)
 (*                         Remotes[i] put into the context; newRoot = WithNewRoot();    *)
 (*                         hi = class of the trace ID the ID generator will hand out    *)
 (*                         (only meaningful when a fresh trace begins)                  *)
@@ -16,13 +21,15 @@ CONSTANTS Samplers,     \* set of sampler terms
           MaxSpans,
           NewRootFor,   \* subset of {"none","local","remote"}: parents also tried WithNewRoot
           EndMode,      \* "any": every span may be ended at any time | "none"
-          CtxUntil      \* parents "none"/"remote" are tried only while Len(spans) < CtxUntil
+          CtxUntil,     \* parents "none"/"remote" are tried only while Len(spans) < CtxUntil
+          NProv,        \* at most this many TracerProviders in the process
+          GenMode       \* "own" (each provider's generator has its own stream) | "shared" (see SamplingModel)
 
-VARIABLES cfg, spans, act
-vars == <<cfg, spans, act>>
+VARIABLES cfg, np, spans, act
+vars == <<cfg, np, spans, act>>
 
 Unset == [k |-> "unset"]
-DummyR == [valid |-> FALSE, remote |-> FALSE, sampled |-> FALSE, ts |-> "", hi |-> 0]
+DummyR == [valid |-> FALSE, remote |-> FALSE, fl |-> 0, ts |-> "", hi |-> 0]
 
 RawV(kind, i) == RawView(spans, Remotes, kind, i)
 Inh(kind, i, nr) == Inherits(spans, Remotes, kind, i, nr)
@@ -35,34 +42,39 @@ StartChoices ==
   UNION {
     LET kind == t[1]  i == t[2] IN
     UNION {
-      {[op |-> "Start", kind |-> kind, i |-> i, newRoot |-> nr,
-        hi |-> h, r |-> IF kind = "remote" THEN Remotes[i] ELSE DummyR]
-         : h \in (IF Inh(kind, i, nr) THEN {0} ELSE His)}
+      {[op |-> "Start", p |-> x[1], kind |-> kind, i |-> i, newRoot |-> nr,
+        hi |-> x[2], r |-> IF kind = "remote" THEN Remotes[i] ELSE DummyR]
+         : x \in (1..np) \X (IF Inh(kind, i, nr) THEN {0} ELSE His)}
       : nr \in (IF kind \in NewRootFor THEN BOOLEAN ELSE {FALSE}) }
     : t \in Targets }
 
-Init == cfg = Unset /\ spans = <<>> /\ act = [op |-> "Init"]
+Init == cfg = Unset /\ np = 0 /\ spans = <<>> /\ act = [op |-> "Init"]
 
 Configure(s) == /\ cfg = Unset
-                /\ cfg' = s /\ UNCHANGED spans
+                /\ cfg' = s /\ np' = 1 /\ UNCHANGED spans
                 /\ act' = [op |-> "Configure", sampler |-> s]
 
+NewProv == /\ cfg # Unset /\ np < NProv /\ Len(spans) < MaxSpans
+           /\ np' = np + 1 /\ UNCHANGED <<cfg, spans>>
+           /\ act' = [op |-> "NewProv"]
+
 Start(a) == /\ cfg # Unset /\ Len(spans) < MaxSpans
-            /\ spans' = StartSpan(cfg, spans, Remotes, a) /\ UNCHANGED cfg
+            /\ spans' = StartSpanG(GenMode, cfg, spans, Remotes, a) /\ UNCHANGED <<cfg, np>>
             /\ act' = a
 
 End(i) == /\ cfg # Unset /\ EndMode = "any"
-          /\ spans' = EndAt(spans, i) /\ UNCHANGED cfg
+          /\ spans' = EndAt(spans, i) /\ UNCHANGED <<cfg, np>>
           /\ act' = [op |-> "End", i |-> i]
 
 Next == \/ \E s \in Samplers : Configure(s)
+        \/ NewProv
         \/ \E a \in StartChoices : Start(a)
         \/ \E i \in DOMAIN spans : End(i)
 Spec == Init /\ [][Next]_vars
 
-View == <<cfg, spans>>
-EmitEdge == PrintT("EDGE " \o ToJson([from |-> [cfg |-> cfg, spans |-> spans], act |-> act',
-                                      to |-> [cfg |-> cfg', spans |-> spans']]))
+View == <<cfg, np, spans>>
+EmitEdge == PrintT("EDGE " \o ToJson([from |-> [cfg |-> cfg, np |-> np, spans |-> spans], act |-> act',
+                                      to |-> [cfg |-> cfg', np |-> np', spans |-> spans']]))
 
 (* ---------------------------------------------------------------- the property *)
 Resolved == CASE cfg.k = "env" -> EnvSampler(cfg.name, cfg.arg)
@@ -78,6 +90,7 @@ HasParent(sp) == Inh(sp.par.kind, sp.par.i, sp.par.newRoot)
 ParentView(sp) == RawV(sp.par.kind, sp.par.i)
 
 Clauses == FlagIffRAS(spans) /\ RecIffNotDrop(spans) /\ ExportIffSampled(spans) /\ IdsOK(spans)
+           /\ UniqueInProcess(spans, Remotes)
 
 (* child: parent's trace; root: a fresh trace (label never used before, not a remote one) *)
 Connected ==
@@ -87,10 +100,12 @@ Connected ==
     THEN /\ ~sp.par.fresh
          /\ sp.tr = (IF sp.par.kind = "local" THEN spans[sp.par.i].tr ELSE 100 + sp.par.i)
          /\ sp.hi = (IF sp.par.kind = "local" THEN spans[sp.par.i].hi ELSE Remotes[sp.par.i].hi)
+         /\ sp.tid = (IF sp.par.kind = "local" THEN spans[sp.par.i].tid ELSE RemoteTid(sp.par.i))
     ELSE /\ sp.par.fresh /\ sp.tr < 100
          /\ \A j \in 1..(i - 1) : spans[j].tr # sp.tr
 
-(* the default parent-based sampler gives a child the decision of its local or remote parent *)
+(* the default parent-based sampler gives a child the decision of its local or remote parent: *)
+(* the parent's SAMPLED BIT, whatever else its flags byte holds                              *)
 DefaultPBFollowsParent ==
   IsDefaultPB(Resolved) =>
     \A i \in DOMAIN spans : HasParent(spans[i]) => (spans[i].sampled = ParentView(spans[i]).sampled)
@@ -109,11 +124,23 @@ RatioPure ==
   (cfg # Unset /\ Resolved.k = "ratio") =>
     \A i \in DOMAIN spans : spans[i].sampled <=> (spans[i].hi < Resolved.n)
 
+(* flags: only the sampled bit is decided by the sampler; the other bits come from the context *)
+(* (a remote context: the other bits of its flags byte; a local span: what it carried itself)  *)
+FlagsFromContext ==
+  \A i \in DOMAIN spans :
+    LET sp == spans[i] IN
+    sp.flx = (CASE sp.par.kind = "none" -> 0
+                [] sp.par.kind = "local" -> spans[sp.par.i].flx
+                [] sp.par.kind = "remote" -> OtherBits(Remotes[sp.par.i].fl))
+ASSUME \A j \in DOMAIN Remotes : Remotes[j].fl \in 0..255
+
 Inv == Clauses /\ Connected /\ DefaultPBFollowsParent /\ TraceWhole /\ TsKept /\ RatioPure
+       /\ FlagsFromContext
 
 (* action properties: identity and decision of a started span never change; exports only grow *)
 Stable == [][\A i \in DOMAIN spans :
                /\ spans'[i].tr = spans[i].tr /\ spans'[i].sampled = spans[i].sampled
+               /\ spans'[i].sid = spans[i].sid /\ spans'[i].tid = spans[i].tid /\ spans'[i].flx = spans[i].flx
                /\ spans'[i].ts = spans[i].ts /\ spans'[i].expS >= spans[i].expS
                /\ spans'[i].expB >= spans[i].expB /\ (spans[i].ended => spans'[i] = spans[i])]_vars
 =============================================================================
